@@ -248,7 +248,7 @@ theorem source_results_order_restored : iterSites.all orderRestored = true := by
 
 /-- **the model's assumptions about a task hold of the source**: the shared statement of each step mentions, of all
     shared state, exactly what the model gives a task (`names` = `Shared.set` on load; the glyph map, read-only, on
-    save; no `&mut` capture, no lock, atomic, static or `path_set`); a failing task ends the step through
+    save; the name table is recognised by the type `&NameList` of the parameter; no `&mut` capture, no lock, atomic, static or `path_set`); a failing task ends the step through
     `collect::<Result<..>>` / `try_for_each` (model: fails iff some task fails, `par_load_fails_iff_seq_fails`); and each step is
     one the model treats as commutative (`modelParSteps` names the theorem) -/
 theorem source_shared_state_matches_model :
@@ -256,12 +256,13 @@ theorem source_shared_state_matches_model :
     iterSites.all (fun s => modelErrorForms.contains s.errorForm) = true ∧
     modelParSteps.map (·.2.2.2) = ["par_load_eq_seq", "par_save_eq_seq"] := by decide
 
-/-- **`get` is the model's two atomic steps**: the rayon `impl` contains, after `norm`, exactly the read step
-    (look up under the read lock, clone) followed, on a miss, by the write step (`HashSet::insert` under the write lock,
-    return the requested name) — `getSplit` / `writeStep false` of the model -/
+/-- **`get` is the model's two atomic steps**: the table words of the rayon `impl`, after `norm`, are in order
+    exactly: `get` = look up under the read lock and clone; on a miss `HashSet::insert` under the write lock and a clone of
+    the requested name (`getSplit` / `writeStep false` of the model); `contains` = a lookup under the read lock.
+    Local names and punctuation are not compared (a renaming is not a change). -/
 theorem source_get_is_two_step :
-    (nameTable.filter (fun s => s.kind = "impl")).all (fun s => isInfix modelGetBody (norm s.par)) = true ∧
-    (nameTable.filter (fun s => s.kind = "impl")).length = 1 := by decide +kernel
+    (nameTable.filter (fun s => s.kind = "impl")).map (fun s => shape (norm s.par)) = [modelTableShape] := by
+  decide +kernel
 
 /-- `norm` erases only what it is meant to: it does not identify a hashed with an ordered collection, nor two
     different method calls (non-vacuity of `source_par_bodies_equal_seq`) -/
